@@ -120,6 +120,7 @@ fn main() {
         }
     }
     // shrink what can be shrunk
+    report.failures.sort_by_key(|f| if f.kind == "oracle" { 0 } else { 1 });
     let shrunk: Vec<core::Failure> = report.failures.iter().take(5).map(|f| shrink(f, &driver)).collect();
     report.failures = shrunk;
     let json = report_json(&slice, seed, &tier, &report);
